@@ -29,7 +29,7 @@ def env_case(case):
         m.add_atom(Element.from_atomic_number(nz)(), k)
         m.add_bond(1, k, o)
     a = m.atom(1)
-    return {'kind': 'atom', 'z': z, 'c': c, 'r': r, 'env': env, 'h': chy.ival(a.implicit_hydrogens), 'hc': chy.ival(a.implicit_hydrogens),
+    return {'kind': 'atom', 'z': z, 'c': c, 'r': r, 'env': env, 'h': chy.ival(a.implicit_hydrogens), 'hc': chy.ival(a.implicit_hydrogens), 'built': 1,
             'adm': [[h, 1 if m.check_implicit(1, h) else 0] for h in range(0, 5)]}
 
 
@@ -42,13 +42,37 @@ def mol_atoms(case):
         m.kekule()
     except Exception as e:
         return {'skip': type(e).__name__}
+    built = 0
+    if case.get('edit'):
+        # a transaction mixing attribute changes with structural edits elsewhere, and edits outside transactions:
+        # afterwards every stored count must be the one the rules give
+        rnd = random.Random(case['edit'])
+        built = 1
+        try:
+            nums = list(m._atoms)
+            with m:
+                for n in rnd.sample(nums, min(3, len(nums))):
+                    a = m._atoms[n]
+                    if rnd.random() < .5:
+                        a.charge = max(-4, min(4, a.charge + rnd.choice([-1, 1])))
+                    else:
+                        a.is_radical = not a.is_radical
+                x = m.add_atom(rnd.choice(['C', 'O', 'N', 'Cl']))
+                m.add_bond(rnd.choice(nums), x, 1)
+                bl = [(p, q) for p, q, b in m.bonds() if b._order == 1 and x not in (p, q)]
+                if bl and rnd.random() < .5:
+                    m.delete_bond(*rnd.choice(bl))
+            if rnd.random() < .5:
+                m.delete_atom(rnd.choice(nums))
+        except Exception as e:
+            return {'skip': 'edit:' + type(e).__name__}
     atoms = []
     mc = m.copy()
     for n, a in m._atoms.items():
         env = sorted([int(b._order), m._atoms[k].atomic_number] for k, b in m._bonds[n].items())
         mc.calc_implicit(n)
         atoms.append({'kind': 'atom', 'z': a.atomic_number, 'c': a._charge, 'r': 1 if a._is_radical else 0, 'env': env,
-                      'h': chy.ival(a._implicit_hydrogens), 'hc': chy.ival(mc._atoms[n]._implicit_hydrogens), 'adm': [[h, 1 if m.check_implicit(n, h) else 0] for h in range(0, 5)]})
+                      'h': chy.ival(a._implicit_hydrogens), 'hc': chy.ival(mc._atoms[n]._implicit_hydrogens), 'built': built, 'adm': [[h, 1 if m.check_implicit(n, h) else 0] for h in range(0, 5)]})
     idx = {n: i + 1 for i, n in enumerate(m._atoms)}
     sym2z = {a.atomic_symbol: a.atomic_number for a in m._atoms.values()}
     sym2z['H'] = 1
@@ -121,7 +145,8 @@ def run(ck):
         ck.count('core-model-domain', sum(1 for r in recs if r['z'] in (5, 6, 7, 8, 9) and r['c'] in (-1, 0, 1)))
     corp = chy.corpus()
     sel = chy.pick(corp, 300 if ck.quick else 4200, ck.seed) + EXOTIC
-    mcases = ck.select('molecules', [{'key': s, 'smi': s} for s in sel])
+    mcases = ck.select('molecules', [{'key': s, 'smi': s} for s in sel] +
+                       [{'key': f'edited:{s}:{k}', 'smi': s, 'edit': ck.seed * 977 + k + 1} for k, s in enumerate(chy.pick(corp, 150 if ck.quick else 1500, ck.seed, 4))])
     if mcases:
         res = vlib.pmap('checks.c04', 'mol_atoms', mcases)
         arecs, acases, mrecs, mc = [], [], [], []
@@ -133,7 +158,7 @@ def run(ck):
             mrecs.append(r['mol'])
             mc.append(c)
             for a in r['atoms']:
-                k = f"{a['z']}:{a['c']}:{a['r']}:{a['env']}:{a['h']}"
+                k = f"{a['z']}:{a['c']}:{a['r']}:{a['env']}:{a['h']}:{a['built']}"
                 if k not in seen:
                     seen.add(k)
                     arecs.append(a)
